@@ -200,6 +200,11 @@ pub struct Rec {
     /// Times of the target inode before a utimens/futimens call.
     pub prev_atime: Ts,
     pub prev_mtime: Ts,
+    /// The call was issued while the thread was inside a library call
+    /// (as opposed to the application's own preparation or clean-up).
+    pub lib: bool,
+    /// Index of this call among its process's calls (0-based).
+    pub call_index: u64,
 }
 
 impl Rec {
@@ -371,6 +376,7 @@ pub struct InjectInfo<'a> {
     pub raw: &'a str,
     pub raw2: &'a str,
     pub arg: u64,
+    pub lib: bool,
 }
 
 pub type Injector = Box<dyn FnMut(&InjectInfo, &mut Tape) -> Option<Errno> + Send>;
@@ -422,6 +428,7 @@ pub struct Ctx {
     pub part: Option<usize>,
     pub proc: usize,
     pub op: u32,
+    pub lib: bool,
 }
 
 thread_local! {
@@ -435,6 +442,7 @@ pub fn attach(sim: &Arc<Sim>, part: Option<usize>, proc: usize) {
             part,
             proc,
             op: 0,
+            lib: false,
         })
     });
 }
@@ -449,6 +457,20 @@ pub fn set_op(op: u32) {
             ctx.op = op;
         }
     });
+}
+
+/// Marks the calling thread as being inside (or outside) a library call;
+/// returns the previous value.
+pub fn set_lib(v: bool) -> bool {
+    CTX.with(|c| {
+        if let Some(ctx) = c.borrow_mut().as_mut() {
+            let old = ctx.lib;
+            ctx.lib = v;
+            old
+        } else {
+            false
+        }
+    })
 }
 
 pub fn set_proc(proc: usize) {
@@ -923,6 +945,7 @@ impl Sim {
                 raw: &req.raw,
                 raw2: &req.raw2,
                 arg: req.arg,
+                lib: ctx.lib,
             };
             injected = inj(&info, &mut st.tape);
             st.injector = Some(inj);
@@ -950,6 +973,8 @@ impl Sim {
             nfds: 0,
             prev_atime: 0,
             prev_mtime: 0,
+            lib: ctx.lib,
+            call_index,
         };
         if req.fd >= 0 {
             if let Some(e) = st.procs[proc].fds.get(&req.fd) {
